@@ -206,6 +206,7 @@ def main():
     agg = {"counters": {}, "maxes": {}, "dsets": {}, "evaluations": 0, "distinct_nontrivial": 0,
            "samples": [], "inconclusive": 0}
     passes_run = []
+    outside = []
 
     tasks = []
     for ps in cfg["passes"]:
@@ -325,8 +326,17 @@ def main():
                 rp = os.path.join(replaydir, "race-s%d-%d-%d.txt" % (seed, i, len(seen)))
                 with open(rp, "w") as f:
                     f.write(text + "\n")
-                if ingl >= 1:
+                rel = cfg.get("race_relevant")
+                relevant = True
+                if rel:
+                    relevant = any(re.search(x, text) for x in rel)
+                if ingl >= 1 and relevant:
                     violations.append((sig, "data race reported by the race detector", rp))
+                elif ingl >= 1:
+                    # a race inside goleveldb on state that this property's mechanism does not cover:
+                    # listed in the evidence, not a verdict on this property
+                    agg["counters"]["race_reports_outside_property"] = agg["counters"].get("race_reports_outside_property", 0) + 1
+                    outside.append(sig)
                 else:
                     broken.append("race confined to the harness: %s (%s)" % (sig, rp))
 
@@ -377,6 +387,7 @@ def main():
         "children_not_finished": [c for c in children if not c["done"]],
         "known_findings_reproduced": {k: v[1] for k, v in known_hits.items()},
         "unlisted_violation_signatures": sorted(set(s for s, _, _ in unknown))[:50],
+        "race_signatures_outside_property": sorted(set(outside))[:20],
         "repo": repo_path(),
     }
     ev = {
